@@ -87,6 +87,28 @@ pub fn drive(a: &Args) {
             }
         }
     }
+    // extreme bounds (up to u32::MAX, which TLC's 32-bit integers cannot hold: values are logged as two 16-bit
+    // halves and only compared): includes / contains / the predicates, finite ranges ending at u32::MAX against
+    // infinite ones
+    {
+        let split = |x: u32| json!([x >> 16, x & 0xFFFF]);
+        let big = |r: R| json!({"lo": split(r.0), "inf": r.1.is_none(), "hi": split(r.1.unwrap_or(0))});
+        let vals = [0u32, 1, 2, 7, 0xFFFF, 0x10000, 0x7FFFFFFF, 0x80000000, u32::MAX - 1, u32::MAX];
+        let mut ranges: Vec<R> = vec![];
+        for (i, &lo) in vals.iter().enumerate() {
+            for &hi in &vals[i..] {
+                ranges.push((lo, Some(hi)));
+            }
+            ranges.push((lo, None));
+        }
+        for &r in &ranges {
+            let x = mk(r);
+            let contains: Vec<Value> = vals.iter().map(|&i| json!({"i": split(i), "res": x.contains(i)})).collect();
+            let incl: Vec<Value> = ranges.iter().map(|&s| json!({"s": big(s), "res": x.includes(&mk(s))})).collect();
+            out.emit(json!({"op":"big","r":big(r),"contains":contains,"includes":incl,
+                "finite":x.is_finite(),"infinite":x.is_infinite(),"point":x.is_point(),"start":split(x.start())}));
+        }
+    }
     // larger parameters: judged with the closed forms that MC_LoopRanges justified
     for _ in 0..a.sz(1500, 30000) {
         let big = |rng: &mut Rng| -> R {
